@@ -1,10 +1,12 @@
 #!/bin/bash
-# iso.sh <seed-name|-> <ID> [tier] : run one check against a seeded change in an isolated copy of /repo + /verif
+# iso.sh <seed-name|patch-file|-> <ID> [tier] : run one check against a seeded change in an isolated copy of /repo + /verif
 # (never touches /repo). Leaves the copy under /tmp/iso/<seed-name> for inspection; remove it when done.
 name=$1; id=$2; tier=${3:-quick}
-w=/tmp/iso/$name; rm -rf $w; mkdir -p $w
+patch=/verif/seeded/$name/patch.diff
+if [ -f "$name" ]; then patch=$name; name=$(echo "$name" | tr '/.' '__'); fi
+w=/tmp/iso/$name-$id; rm -rf $w; mkdir -p $w
 cp -a /repo $w/repo
 rsync -a --exclude .git --exclude logs --exclude replays --exclude evidence /verif/ $w/verif/
 sed -i "s|=> /repo/|=> $w/repo/|" $w/verif/harness/go.mod
-if [ "$name" != "-" ]; then git -C $w/repo apply /verif/seeded/$name/patch.diff || git -C $w/repo apply -3 /verif/seeded/$name/patch.diff || exit 3; fi
+if [ "$name" != "-" ]; then git -C $w/repo apply $patch || git -C $w/repo apply -3 $patch || exit 3; fi
 cd $w/verif && VERIF_REPO=$w/repo ./check $id $tier; echo "rc=$? (logs in $w/verif/logs)"
